@@ -651,7 +651,14 @@ impl Check for Heap {
                 }
                 if name == "abort-points" || (name == "directed" && self.which == Which::C04) {
                     // fault enumeration: cut the run after k instructions, for every k (selected k for long runs)
-                    let ks: Vec<u64> = if n <= 600 { (0..n).collect() } else { (0..200).map(|j| j * n / 200).chain(0..100).collect() };
+                    let ks: Vec<u64> = if ctx.flavour == Flavour::Miri {
+                        // interpreted: a dozen cut points per program, spread over the run (the native tiers take every k)
+                        (0..12).map(|j| j * n.max(1) / 12).collect()
+                    } else if n <= 600 {
+                        (0..n).collect()
+                    } else {
+                        (0..200).map(|j| j * n / 200).chain(0..100).collect()
+                    };
                     for k in ks {
                         let mut c = cfg.clone();
                         c.budget = Some(k);
